@@ -17,10 +17,13 @@
    That end-to-end behaviour is exercised by netsim scenarios
    (harness/cmd/c04net: a full ChainService against one honest and 0-3
    misbehaving scripted nodes) and judged by the monitor C04net/Replay.v;
-   the observations tagged 22 (a client that finished syncing from a peer on
-   a lighter valid fork asks the other peers only after they announce a
-   block) and 23 (a filter lie about a coinbase-only block) and the
-   silent-sync-peer delays live exactly in the part that is not modelled. *)
+   the finding tagged 22 (F22: a client that finished syncing from a peer on
+   a lighter valid fork asks an already connected honest peer only after it
+   announces a block), the root cause tagged 23 (F30 of C03, repaired: a
+   filter lie about a coinbase-only block could not be refuted) and the
+   silent-sync-peer delays live exactly in the part that is not modelled.
+   [best_block] is tied to ChainService.BestBlock by a table replayed on
+   every run (C04/Replay.v). *)
 From stdpp Require Import list.
 From Coq Require Import ZArith Lia.
 From Verif Require Import S2.Model C01.Spec C02.Spec.
